@@ -27,11 +27,34 @@ Clause ==
                           ELSE IF Obs.udn # SubSeq(NamesOf(Map), Min(7, Len(Map)) + 1, Len(Map)) THEN "user-data-view"
                           ELSE "ok"
 
+\* ---- generator-level classification of this packet (property C14), when the case carries it:
+\* gen = {chk, y1, w1, x1, y0, w0, x0}: items yielded / length-mismatch warning issued / exception escaped, for the packet run
+\* alone through packet_generator with parse_bad_pkts = True (1) and False (0)
+G == Obs.gen
+Exact == pos = NBits
+GenClause ==
+    IF ~G.chk THEN "ok"
+    ELSE CASE status = "undef" -> "ok"
+           [] status = "ok" /\ Exact ->
+                 IF G.x1 \/ G.x0 THEN "clean-packet-raised"
+                 ELSE IF G.w1 \/ G.w0 THEN "clean-packet-flagged"
+                 ELSE IF G.y1 # 1 \/ G.y0 # 1 THEN "clean-packet-not-delivered" ELSE "ok"
+           [] status = "ok" /\ ~Exact ->
+                 IF G.x1 \/ G.x0 THEN "ok"                                  \* fails with an exception: allowed
+                 ELSE IF ~G.w1 \/ ~G.w0 THEN "length-mismatch-not-flagged"
+                 ELSE IF G.y0 # 0 THEN "bad-packet-not-withheld"
+                 ELSE IF G.y1 # 1 THEN "flagged-packet-lost-although-bad-packets-requested" ELSE "ok"
+           [] status = "poisoned" ->
+                 IF (~G.x1 /\ G.y1 > 0 /\ ~G.w1) \/ (~G.x0 /\ G.y0 > 0) THEN "overread-delivered-clean" ELSE "ok"
+           [] status = "unrec" -> IF G.x1 \/ G.x0 THEN "unrecognized-raised" ELSE IF G.y1 # 0 \/ G.y0 # 0 THEN "unrecognized-delivered" ELSE "ok"
+           [] status = "error" -> "ok"
+Verd == IF Clause # "ok" THEN Clause ELSE GenClause
+
 Step == st = "run" /\ ~Terminal /\ Walk /\ UNCHANGED st
 Verdict == /\ st = "run" /\ Terminal
            /\ st' = "done"
-           /\ PrintT(<<IF Clause = "ok" THEN "ACCEPT" ELSE "REJECT", cid[1], cid[2], Clause, status, pos,
-                       IF Clause = "ok" THEN "" ELSE ToJson(Map)>>)
+           /\ PrintT(<<IF Verd = "ok" THEN "ACCEPT" ELSE "REJECT", cid[1], cid[2], Verd, status, pos,
+                       IF Verd = "ok" THEN "" ELSE ToJson(Map), Exact>>)
            /\ UNCHANGED dvars
 TraceNext == Step \/ Verdict
 \* walk invariants, evaluated in every state of every case
